@@ -185,6 +185,30 @@ def check_octets(run, o):
     if back != ref:
         diff = {k: (back.get(k), ref.get(k)) for k in set(back) | set(ref) if back.get(k) != ref.get(k)}
         run.violation("decoded-header-differs-from-reference/type%d" % ref["type"], {"octets": o[:24], "diff": diff})
+        return
+    # the same octets decoded into an object that still holds an earlier header (of another PDU type, say): every header field
+    # of the object then says what a fresh object says
+    global USED, USED_LAST
+    if USED is None:
+        USED = A.APDU()
+    try:
+        USED.decode(PDU(o))
+    except Exception as err:
+        run.violation("decoding-into-a-used-object-raised/" + type(err).__name__, {"octets": o[:24], "previous_octets": USED_LAST})
+        USED = None
+        return
+    run.count("decoded_into_a_used_object")
+    diff = {n: (getattr(USED, at), getattr(a, at)) for n, at in FIELD_ATTR.items() if getattr(USED, at) != getattr(a, at)}
+    if USED.apduType != a.apduType or bytes(USED.pduData) != bytes(a.pduData):
+        diff["type-or-payload"] = (USED.apduType, a.apduType)
+    if diff:
+        run.violation("decoded-into-a-used-object-differs/" + ",".join(sorted(diff)), {"octets": o[:24], "previous_octets": USED_LAST,
+                                                                                    "diff_(used, fresh)": {k: repr(v) for k, v in diff.items()}})
+    USED_LAST = o[:24]
+
+
+USED = None
+USED_LAST = None
 
 
 def check_tables(run):
